@@ -36,7 +36,7 @@ impl EtherCrabWireWrite for &[u8] {
 
 /*@type file=src/pdu_loop/pdu_flags.rs name=PduFlags derive="Clone, Copy, PartialEq, Eq, Debug" @*/
 impl PduFlags {
-/*@fn file=src/pdu_loop/pdu_flags.rs impl="impl PduFlags" name=new subst="pub const fn=>pub fn" canary=0
+/*@fn file=src/pdu_loop/pdu_flags.rs impl="impl PduFlags" name=new canary=0
     ensures r.length == data_len, r.more_follows == more_follows, !r.circulated
 @*/
     /// hand-written impl in pdu_flags.rs (bit layout checked by Kani frame_build / C19): needs 2 bytes
